@@ -6,6 +6,14 @@ use crate::prelude::{Box, Vec, index_map_new, index_map_with_capacity, vec};
 use crate::value::{CheapClone, ExoticObject, Guarded, JsMapKey, JsValue, PropertyKey};
 
 /// Initialize Map.prototype with get, set, has, delete, clear, forEach methods
+/// A key -0 is stored as +0 (the keys compare equal, and +0 is what iteration shows)
+fn plus_zero(v: JsValue) -> JsValue {
+    match v {
+        JsValue::Number(n) if n == 0.0 => JsValue::Number(0.0),
+        other => other,
+    }
+}
+
 pub fn init_map_prototype(interp: &mut Interpreter) {
     let proto = interp.map_prototype.clone();
 
@@ -112,7 +120,7 @@ pub fn map_constructor(
         let mut map = map_obj.borrow_mut();
         if let ExoticObject::Map { ref mut entries } = map.exotic {
             for (key, value) in pairs {
-                entries.insert(JsMapKey(key), value);
+                entries.insert(JsMapKey(plus_zero(key)), value);
             }
             let len = entries.len();
             map.set_property(size_key, JsValue::Number(len as f64));
@@ -164,7 +172,7 @@ pub fn map_set(
     let mut map = map_obj.borrow_mut();
 
     if let ExoticObject::Map { ref mut entries } = map.exotic {
-        entries.insert(JsMapKey(key), value);
+        entries.insert(JsMapKey(plus_zero(key)), value);
         let len = entries.len();
         map.set_property(size_key, JsValue::Number(len as f64));
     }
@@ -553,7 +561,7 @@ pub fn map_group_by(
         let key = key_result.value;
 
         // Add to existing group or create new one
-        groups.entry(JsMapKey(key)).or_default().push(item);
+        groups.entry(JsMapKey(plus_zero(key))).or_default().push(item);
     }
 
     // Now build the Map from the groups
